@@ -412,6 +412,67 @@ def op_is_call(rec):
     return rec["op"] in ("call", "clear")
 
 
+def scenarios(L):
+    """Two forms outside the pattern table, each compared with functools: a cached method called through instances
+    that are equal to one another (they share entries, but a miss runs with the instance it was called through), and a
+    cache stacked on another cache (two stores, two sets of statistics)."""
+    import functools  # noqa: PLC0415
+    out = []
+
+    def run_async(aw):
+        r = Task(aw, Accounting()).run()
+        return r[1] if r[0] == "done" else "raised:" + type(r[1]).__name__
+
+    def equal_instances(deco, call):
+        class P:
+            def __init__(self, tag):
+                self.tag = tag
+
+            def __eq__(self, o):
+                return isinstance(o, P)
+
+            def __hash__(self):
+                return 1
+
+        if call is run_async:
+            async def f(self, x):
+                return (self.tag, x)
+        else:
+            def f(self, x):
+                return (self.tag, x)
+        P.f = deco(maxsize=8)(f)
+        if hasattr(P.f, "__set_name__"):
+            P.f.__set_name__(P, "f")
+        a, b = P("a"), P("b")
+        return [call(a.f(1)), call(b.f(2)), call(b.f(1)), call(a.f(2)), call(b.f(3))]
+
+    want = equal_instances(functools.lru_cache, lambda x: x)
+    got = equal_instances(L.lru_cache, run_async)
+    if got != want:
+        out.append(("C10/lru_cache/method-of-equal-instances-differs-from-functools", {"engine": "scenario", "expected": want, "observed": got}))
+
+    def stacked(deco, call):
+        n = {"calls": 0}
+        if call is run_async:
+            async def fn(x):
+                n["calls"] += 1
+                return ("v", x)
+        else:
+            def fn(x):
+                n["calls"] += 1
+                return ("v", x)
+        inner = deco(maxsize=2)(fn)
+        outer = deco(maxsize=4)(inner)
+        res = [call(outer(x)) for x in (1, 2, 3, 4, 5, 1, 2, 6, 7, 8, 9, 1)]
+        return {"results": res, "invocations": n["calls"], "outer": list(outer.cache_info()), "inner": list(inner.cache_info())}
+
+    want = stacked(functools.lru_cache, lambda x: x)
+    got = stacked(L.lru_cache, run_async)
+    if got != want:
+        out.append(("C10/lru_cache/cache-stacked-on-a-cache-differs-from-functools", {"engine": "scenario", "expected": want, "observed": got}))
+    return out
+
+
 def check(prop, tier, seed, into=None):
     v = into or Verdict(prop, tier, seed)
     label_counts = {}
@@ -437,6 +498,8 @@ def check(prop, tier, seed, into=None):
                 v.violation("C10/lru_cache/suspends-without-user-awaitable", {"engine": "lru", "cfg": list(map(str, cfg))})
         if paths:
             v.sample({"cfg": {"maxsize": maxsize, "typed": typed, "form": form, "patterns": pats}, "history": [e["a"] for e in paths[len(paths) // 2]]}, cap=4)
+    for sig, d in scenarios(tm.load_lib()):
+        v.violation(sig, d)
     # code -> spec: long random histories, validated by TLC per (maxsize, typed) configuration
     rnd = random.Random(seed)
     nhist = 80 if tier == "quick" else 640
